@@ -38,13 +38,15 @@ Lemma failed_raw s o : WF s -> wf_op s o = true ->
   res_is_err (snd (m_step_raw s o)) = true -> fs_view (fst (m_step_raw s o)) = fs_view s.
 Proof.
   intros W Hwf. destruct o; cbn [m_step_raw].
-  - (* Create *) unfold m_create.
-    match goal with |- context [let '(s1, f) := ?x in _] => destruct x as [s1 f] end.
-    destruct (alloc_handle s1 _) as [s2 h]. discriminate.
+  - (* Create *) unfold m_create. cbv zeta.
+    match goal with |- context [match ?x with Some _ => _ | None => (s, RErr _) end] => destruct x as [[s1 f]|] end.
+    + destruct (alloc_handle s1 _) as [s2 h]. discriminate.
+    + reflexivity.
   - (* Mkdir *) cbn [wf_op] in Hwf. apply andb_true_iff in Hwf as [Hn Hwf].
     destruct (lookup s (normalize_path p)) as [f|] eqn:Hl.
     + unfold m_mkdir. rewrite Hl. reflexivity.
-    + rewrite (m_mkdir_missing s p perm Hl). cbv zeta.
+    + assert (Hc0 : canon (normalize_path p)) by now apply canon_normalize.
+      rewrite (m_mkdir_missing s p perm Hl (below_file_dir_parent s _ Hc0 Hwf)). cbv zeta.
       set (k := normalize_path p) in *. assert (Hc : canon k) by now apply canon_normalize.
       destruct (reg_new_present s k (mkdir_node k (Z.land perm chmod_bits) (mclock s)) (Z.land perm chmod_bits) W Hc Hl)
         as (q & Hq & -> & W'); auto.
@@ -53,7 +55,8 @@ Proof.
   - (* MkdirAll *) cbn [wf_op] in Hwf. apply andb_true_iff in Hwf as [Hn Hwf].
     unfold m_mkdirall. destruct (lookup s (normalize_path p)) as [f|] eqn:Hl.
     + unfold m_mkdir. rewrite Hl. cbn. discriminate.
-    + rewrite (m_mkdir_missing s p perm Hl). cbv zeta.
+    + assert (Hc0 : canon (normalize_path p)) by now apply canon_normalize.
+      rewrite (m_mkdir_missing s p perm Hl (below_file_prefixes_dirs s _ W Hc0 Hwf)). cbv zeta.
       set (k := normalize_path p) in *. assert (Hc : canon k) by now apply canon_normalize.
       destruct (WF_mkdir_chain s k (Z.land perm chmod_bits) W Hc Hl Hwf) as [W' F].
       match goal with |- context [set_file_mode ?a ?b ?c] =>
@@ -71,6 +74,7 @@ Proof.
       destruct (alloc_handle _ _) as [s3 h]. discriminate.
     + destruct (flag_has flag o_create) eqn:Hcr; [|reflexivity].
       assert (Hk : kind_at s k = None) by (unfold kind_at; now rewrite Hl). rewrite Hk in Hwf.
+      rewrite (below_file_dir_parent s k Hc Hwf).
       rewrite m_create_node_eq.
       destruct (reg_new_present s k (new_file k (mclock s)) 0 W Hc Hl) as (q & Hq & -> & W'); auto.
       cbv zeta. rewrite Hdead.
